@@ -587,19 +587,29 @@ def _callbacks(plan, inst, ctx):
         ra, rb = Recorder(), Recorder()
         base = S_.CallbackApply(ra) & S_.CallbackApply(rb)
         s1, s2 = [], []
-        cb1 = base & S_.CallbackStore(results=s1)
+        dflt = plan.get('global_seed', 0) % 2 == 0
+        if dflt:
+            # stores built WITHOUT results= (seed e11: a default list that
+            # is created once would be shared by all of them)
+            st1, st2 = S_.CallbackStore(), S_.CallbackStore()
+            s1, s2 = st1.results, st2.results
+        else:
+            st1 = S_.CallbackStore(results=s1)
+            st2 = S_.CallbackStore(results=s2)
+        cb1 = base & st1
         with seams.allocator(garbage, salt=3):
             with seams.schedule(record=[]):
                 _solver_call(prop, inst, inst.run, inst.fresh_state(), N, cb1,
                              'callbacks')
         c1 = ra.count
-        cb2 = base & S_.CallbackStore(results=s2)
+        cb2 = base & st2
         with seams.allocator(garbage, salt=3):
             with seams.schedule(record=[]):
                 _solver_call(prop, inst, inst.run, inst.fresh_state(), N, cb2,
                              'callbacks')
         ctx.step(2 * N)
         ctx.fired('callback-shared-composite')
+        s1, s2 = st1.results, st2.results
         if not (len(s1) == c1 and len(s2) == ra.count - c1 and
                 rb.count == ra.count):
             raise Violation(
